@@ -3,6 +3,7 @@ package sym
 import (
 	"fmt"
 	"go/types"
+	"os"
 	"sort"
 
 	"golang.org/x/tools/go/ssa"
@@ -204,32 +205,33 @@ func keys(m map[int]bool) []int {
 	return out
 }
 
-// alignedTerm: the alignment condition for raw variables inside an offset term.
+// alignCond: the condition under which the raw (loaded) values an offset term is built from are
+// multiples of the region's alignment, following the structure offsetCands relies on.
 func (e *Engine) alignCond(t smt.Term, align int) smt.Term {
 	c := e.C
-	cond := c.True
-	seen := map[int]bool{}
-	var rec func(t smt.Term)
-	rec = func(t smt.Term) {
-		if seen[t.ID] {
-			return
+	memo := map[int]smt.Term{}
+	var rec func(t smt.Term) smt.Term
+	rec = func(t smt.Term) smt.Term {
+		if r, ok := memo[t.ID]; ok {
+			return r
 		}
-		seen[t.ID] = true
-		if t.Op == smt.OpVar && t.W > 0 {
-			cond = c.And(cond, c.Eq(c.URem(t, c.BV(uint64(align), t.W)), c.BV(0, t.W)))
-			return
+		var r smt.Term = c.True
+		switch t.Op {
+		case smt.OpVar:
+			r = c.Eq(c.URem(t, c.BV(uint64(align), t.W)), c.BV(0, t.W))
+		case smt.OpZExt, smt.OpSExt:
+			r = rec(t.Args[0])
+		case smt.OpAdd:
+			r = c.And(rec(t.Args[0]), rec(t.Args[1]))
+		case smt.OpMul:
+			r = rec(t.Args[0])
+		case smt.OpIte:
+			r = c.Ite(t.Args[0], rec(t.Args[1]), rec(t.Args[2]))
 		}
-		if t.Op == smt.OpURem || t.Op == smt.OpSRem {
-			return
-		}
-		for _, a := range t.Args {
-			if a.W > 0 {
-				rec(a)
-			}
-		}
+		memo[t.ID] = r
+		return r
 	}
-	rec(t)
-	return cond
+	return rec(t)
 }
 
 func (e *Engine) eventCands(st *State, o *Obj, off Sel, n int, where string) []int {
@@ -443,13 +445,30 @@ func (e *Engine) join(st *State, site string) {
 			}
 		}
 	}
-	// 3. memory: per region byte cells
+	// 3. memory: per region cells; regions declared 4-aligned (and a multiple of 4 long) use
+	// 32-bit word cells, others byte cells. Accesses are assembled from / scattered into cells
+	// bytewise; the term simplifier folds whole-word accesses back into single cells.
 	mem := map[*Obj][]smt.Term{}
+	gran := map[*Obj]int{}
 	for _, r := range e.Regions {
 		b := st.Heap[r.Obj].(*Bytes)
-		cells := make([]smt.Term, b.N)
+		g := 1
+		if r.Align%4 == 0 && b.N%4 == 0 {
+			g = 4
+		}
+		gran[r.Obj] = g
+		cells := make([]smt.Term, b.N/g)
 		for i := range cells {
-			cells[i] = b.get(c, i)
+			var t smt.Term
+			for k := 0; k < g; k++ {
+				bt := b.get(c, i*g+k)
+				if t == nil {
+					t = bt
+				} else {
+					t = c.Concat(bt, t)
+				}
+			}
+			cells[i] = t
 		}
 		mem[r.Obj] = cells
 	}
@@ -458,16 +477,47 @@ func (e *Engine) join(st *State, site string) {
 	for _, th := range e.Threads {
 		stats.EventsPerThr = append(stats.EventsPerThr, len(th.Events))
 	}
-	readAt := func(cells []smt.Term, off int, n int) smt.Term {
+	byteAt := func(cells []smt.Term, g int, i int) smt.Term {
+		if g == 1 {
+			return cells[i]
+		}
+		sh := (i % g) * 8
+		return c.Extract(cells[i/g], sh+7, sh)
+	}
+	readAt := func(cells []smt.Term, g int, off int, n int) smt.Term {
 		var t smt.Term
 		for k := 0; k < n; k++ {
+			bt := byteAt(cells, g, off+k)
 			if t == nil {
-				t = cells[off+k]
+				t = bt
 			} else {
-				t = c.Concat(cells[off+k], t)
+				t = c.Concat(bt, t)
 			}
 		}
 		return t
+	}
+	// writeAt returns, per touched cell index, the new cell content when val is stored at off
+	writeAt := func(cells []smt.Term, g int, off int, n int, val smt.Term) map[int]smt.Term {
+		out := map[int]smt.Term{}
+		for ci := off / g; ci <= (off+n-1)/g; ci++ {
+			var t smt.Term
+			for k := 0; k < g; k++ {
+				bi := ci*g + k
+				var bt smt.Term
+				if bi >= off && bi < off+n {
+					bt = c.Extract(val, (bi-off)*8+7, (bi-off)*8)
+				} else {
+					bt = byteAt(cells, g, bi)
+				}
+				if t == nil {
+					t = bt
+				} else {
+					t = c.Concat(bt, t)
+				}
+			}
+			out[ci] = t
+		}
+		return out
 	}
 	offEq := func(ev *Event, cd int) smt.Term {
 		if ev.Off.T == nil {
@@ -506,13 +556,14 @@ func (e *Engine) join(st *State, site string) {
 					continue
 				}
 				cells := mem[ev.Obj]
+				g := gran[ev.Obj]
 				if cells == nil {
 					panic(e.unsupported("event on region without cells"))
 				}
 				// current value at the event's address
 				var cur smt.Term
 				for i := len(ev.Cands) - 1; i >= 0; i-- {
-					v := readAt(cells, ev.Cands[i], ev.N)
+					v := readAt(cells, g, ev.Cands[i], ev.N)
 					if cur == nil {
 						cur = v
 					} else {
@@ -553,13 +604,22 @@ func (e *Engine) join(st *State, site string) {
 							ncells = append([]smt.Term{}, cells...)
 							copied = true
 						}
-						for k := 0; k < ev.N; k++ {
-							ncells[cd+k] = c.Ite(hit, c.Extract(newVal, k*8+7, k*8), ncells[cd+k])
+						for ci, nv := range writeAt(cells, g, cd, ev.N, newVal) {
+							ncells[ci] = c.Ite(hit, nv, ncells[ci])
 						}
 					}
 					mem[ev.Obj] = ncells
 				}
 			}
+		}
+	}
+	if os.Getenv("VERIF_DEBUG") != "" {
+		for _, th := range e.Threads {
+			hist := map[int]int{}
+			for _, ev := range th.Events {
+				hist[len(ev.Cands)]++
+			}
+			fmt.Fprintf(os.Stderr, "DEBUG thread %d candidate-set sizes: %v\n", th.ID, hist)
 		}
 	}
 	e.Sched = append(e.Sched, cons...)
@@ -572,8 +632,8 @@ func (e *Engine) join(st *State, site string) {
 	// 5. main continues on the final memory
 	for _, r := range e.Regions {
 		nb := &Bytes{N: r.Obj.N, Zero: true, Cells: map[int]smt.Term{}}
-		for i, t := range mem[r.Obj] {
-			nb.Cells[i] = t
+		for i := 0; i < r.Obj.N; i++ {
+			nb.Cells[i] = byteAt(mem[r.Obj], gran[r.Obj], i)
 		}
 		st.Heap[r.Obj] = nb
 		stats.Cells += r.Obj.N
